@@ -683,14 +683,31 @@ def rule_api_semantics(ctx, ix):
     else:
         probs.append(f"from_dok called {len(calls)} times")
     check("tensor.py:Tensor.to_format", probs)
-    # to_dok
+    # to_dok: every call reports the items() of the tensor, whatever a caller did with earlier results
     items = [((0, 1), 2.0), ((1, 1), 0.0), ((1, 0), -1.0)]
     probs = []
+    init = ix.funcs.get(f"{T_MOD}.Tensor.__init__")
     for ez, want in ((False, {(0, 1): 2.0, (1, 0): -1.0}), (True, dict(items))):
-        me = S.Obj("Tensor", items=lambda: list(items))
-        outs = list(S.explore_ev(meth("to_dok"), [me], {"explicit_zeros": ez}, TG))
-        if len(outs) != 1 or outs[0][1][0] != "return" or outs[0][1][1] != want:
-            probs.append(f"to_dok(explicit_zeros={ez}) gives {[o[1] for o in outs]}, expected every {'item' if ez else 'non-zero item'} of items()")
+        me = S.Obj("Tensor")
+        if init is not None:
+            list(S.explore_ev(init.node, [me, S.Obj("struct")], {}, TG))  # whatever state __init__ sets up
+        me.attrs["items"] = lambda: list(items)
+        first = None
+        for attempt in (1, 2, 3):
+            outs = list(S.explore_ev(meth("to_dok"), [me], {"explicit_zeros": ez}, TG))
+            if len(outs) != 1 or outs[0][1][0] != "return" or outs[0][1][1] != want:
+                probs.append(
+                    f"to_dok(explicit_zeros={ez}), call {attempt}, gives {[o[1] for o in outs]}, expected every {'item' if ez else 'non-zero item'} of items()"
+                    + (" (an earlier result that the caller modified leaks into this one: the tensor keeps a reference to what it handed out)" if attempt > 1 else "")
+                )
+                break
+            got = outs[0][1][1]
+            if first is not None and got is first:
+                probs.append(f"to_dok(explicit_zeros={ez}) returns the same dict object on every call: a caller's edit changes what the tensor reports")
+                break
+            first = got
+            got[(9, 9)] = 123.0  # the caller edits the dictionary it was given
+            got.pop((0, 1), None)
     check("tensor.py:Tensor.to_dok", probs)
     # pickling: __setstate__(__getstate__()) hands the validator exactly what the readers read
     probs = []
